@@ -48,14 +48,19 @@ fn run_history<'a>(
 ) -> Vec<(String, String)> {
     let mut out = Vec::new();
     let mut handles: HashMap<usize, Handle<'a>> = HashMap::new();
+    // the inputs of is_match / replace_all live in one buffer that is refilled for every call (same
+    // address, often the same length, different text): results must depend on the text alone
+    let mut scratch = String::with_capacity(1 << 14);
     for op in ops {
         let k = op[1].clone();
         let res = match op[0].as_str() {
             "m" => match get(op[2].parse().unwrap()) {
                 Err(e) => format!("C:{}", err(e)),
                 Ok(re) => {
-                    let inp = dec(&op[3]);
-                    match catch_unwind(AssertUnwindSafe(|| re.is_match(&inp))) {
+                    scratch.clear();
+                    scratch.push_str(&dec(&op[3]));
+                    let inp: &str = &scratch;
+                    match catch_unwind(AssertUnwindSafe(|| re.is_match(inp))) {
                         Ok(true) => "1".into(),
                         Ok(false) => "0".into(),
                         Err(_) => "PANIC".into(),
@@ -65,8 +70,10 @@ fn run_history<'a>(
             "r" => match get(op[2].parse().unwrap()) {
                 Err(e) => format!("C:{}", err(e)),
                 Ok(re) => {
-                    let (inp, rep) = (dec(&op[3]), dec(&op[4]));
-                    match catch_unwind(AssertUnwindSafe(|| re.replace_all(&inp, &rep))) {
+                    scratch.clear();
+                    scratch.push_str(&dec(&op[3]));
+                    let (inp, rep): (&str, String) = (&scratch, dec(&op[4]));
+                    match catch_unwind(AssertUnwindSafe(|| re.replace_all(inp, &rep))) {
                         Ok(Ok(s)) => format!("ok:{}", enc(&s)),
                         Ok(Err(e)) => err(&e).to_string(),
                         Err(_) => "PANIC".into(),
